@@ -428,6 +428,118 @@ example : ∀ j ∈ jobsLEx, PathAlias linksEx j := by
   · exact Or.inr ⟨"ln.txt", rfl, by decide +kernel, by decide +kernel, by decide⟩
   · exact Or.inl rfl
 
+/-! ### The `out` option of the step: absent, `None` and `''` all mean "edit in place"
+
+  `planOut` (PypyrModel/FsRewrite.lean) is the `if out_path:` ladder of `files_in_to_out`;
+  `runFiles` is the whole call: plan, then the loop with the per-file out the plan yields. -/
+
+/-- **planOut_spec.** The whole option space of `out`: in place exactly for absent/None/'' (a
+    truthiness test, not `is not None`); a directory when it ends with the separator or is an existing
+    directory; else one file — an error when `in` matched several paths. -/
+theorem planOut_spec (out : Option String) (isDir : Bool) (nIn : Nat) :
+    (planOut out isDir nIn = .inplace ↔ (out = none ∨ out = some "")) ∧
+    (∀ o, out = some o → o ≠ "" → (endsWithSep o = true ∨ isDir = true) →
+      planOut out isDir nIn = .intoDir o) ∧
+    (∀ o, out = some o → o ≠ "" → endsWithSep o = false → isDir = false →
+      planOut out isDir nIn = if nIn > 1 then .tooMany else .toFile o) := by
+  refine ⟨?_, ?_, ?_⟩
+  · cases out with
+    | none => simp [planOut]
+    | some o =>
+      by_cases he : o = ""
+      · simp [planOut, he]
+      · simp only [planOut, he, if_false, Option.some.injEq, false_or, reduceCtorEq, iff_false]
+        repeat' split
+        all_goals simp
+  · intro o ho hne hd
+    subst ho
+    rcases hd with hd | hd
+    · simp [planOut, hne, hd]
+    · by_cases hs : endsWithSep o = true <;> simp [planOut, hne, hd, hs]
+  · intro o ho hne hs hd
+    subst ho
+    simp [planOut, hne, hs, hd]
+
+/-- **files_out_plan_alias_is_no_out.** Whatever `out` is — absent, None, '', the directory of the in
+    files (with or without the trailing separator), a path equal to in — if the per-file out the plan
+    yields is absent or a spelling of the source entry itself, the whole `files_in_to_out` call is,
+    under every fault plan and event for event, the call with no out: every theorem of the
+    multi-file section applies to it. -/
+theorem files_out_plan_alias_is_no_out {fs0 : Fs} {J : List Job} (l : Links)
+    (out : Option String) (isDir : Bool) (nIn : Nat) (hp : planOut out isDir nIn ≠ .tooMany)
+    (wf : JobsWF fs0 (J.map Job.noOut))
+    (hpa : ∀ j ∈ J, PathAlias l (j.withOut (planOut out isDir nIn)))
+    (cfg : Cfg) (plan : Plan) (i : Nat) :
+    runFiles cfg plan i l fs0 out isDir nIn J = runJobs cfg plan i fs0 (J.map Job.noOut) := by
+  have key : ∀ p : OutPlan, (∀ j ∈ J, PathAlias l (j.withOut p)) →
+      runJobsL cfg plan i l fs0 (J.map (Job.withOut p)) = runJobs cfg plan i fs0 (J.map Job.noOut) := by
+    intro p hpa'
+    have hmm : (J.map (Job.withOut p)).map Job.noOut = J.map Job.noOut := by
+      rw [List.map_map]; rfl
+    have := files_out_alias_is_no_out (J := J.map (Job.withOut p)) l (by rw [hmm]; exact wf)
+      (by
+        intro j hj
+        obtain ⟨j0, hj0, rfl⟩ := List.mem_map.mp hj
+        exact hpa' j0 hj0) cfg plan i
+    rw [this, hmm]
+  unfold runFiles
+  cases hq : planOut out isDir nIn with
+  | tooMany => exact absurd hq hp
+  | inplace => exact key .inplace (by rw [hq] at hpa; exact hpa)
+  | intoDir d => exact key (.intoDir d) (by rw [hq] at hpa; exact hpa)
+  | toFile f => exact key (.toFile f) (by rw [hq] at hpa; exact hpa)
+
+/-- **falsy_out_is_no_out.** `out` absent, `None` or the empty string (e.g. `out: '{outDir}'` with
+    `outDir == ''`): the call IS the in-place call, for every list of matched files, every fault plan,
+    whatever `Path('')` happens to be (`isDir`) and however many paths `in` matched. In particular
+    (`unmatched_untouched_files`) no file of the working directory that merely has the name of an in
+    file is ever opened. -/
+theorem falsy_out_is_no_out {fs0 : Fs} {J : List Job} (l : Links) (out : Option String)
+    (hout : out = none ∨ out = some "") (isDir : Bool) (nIn : Nat)
+    (wf : JobsWF fs0 (J.map Job.noOut)) (cfg : Cfg) (plan : Plan) (i : Nat) :
+    runFiles cfg plan i l fs0 out isDir nIn J = runJobs cfg plan i fs0 (J.map Job.noOut) := by
+  have hq : planOut out isDir nIn = .inplace := ((planOut_spec out isDir nIn).1).mpr hout
+  apply files_out_plan_alias_is_no_out l out isDir nIn (by rw [hq]; intro h; cases h) wf
+  intro j _
+  rw [hq]
+  exact Or.inl rfl
+
+/-- conf/a.txt is the in file; cw/ is the working directory and holds an unrelated a.txt;
+    `./a.txt` is how `Path('').joinpath('a.txt')` is spelled, and it resolves to cw/a.txt. -/
+private def fsCwd : Fs := [("conf/a.txt", "AA"), ("cw/a.txt", "PRODUCTION"), ("b.txt", "BB")]
+private def linksCwd : Links :=
+  { entry := [("./a.txt", "cw/a.txt")], ino := [("conf/a.txt", 1), ("cw/a.txt", 2), ("b.txt", 3)] }
+private def jobsCwd : List Job := [{ src := "conf/a.txt", tmp := "conf/tmp#0", body := bodyEx }]
+
+example : JobsWF fsCwd (jobsCwd.map Job.noOut) where
+  srcExists := by decide +kernel
+  tmpFresh := by decide +kernel
+  bodyOps := by decide +kernel
+  inplace := by decide +kernel
+
+/-- **empty_out_read_as_a_path_hits_bystander** (witness: why the tests must be truthiness tests).
+    Were `out: ''` read as the path `Path('')` — the working directory, an existing directory — the
+    plan would be "into that directory": conf/a.txt is written straight to `./a.txt`, the unrelated
+    file of the same name in the working directory. If the second line then fails to format that
+    bystander is left holding the partial output and the source is never edited; a run that ends ok
+    overwrites it. As the code is (`planOut (some "")` = in place) the same plans leave the bystander
+    alone: failing, the directory is untouched; succeeding, only conf/a.txt changes. -/
+theorem empty_out_read_as_a_path_hits_bystander :
+    planOut (some "") true 1 = .inplace ∧ planOut (some ".") true 1 = .intoDir "." ∧
+    (OutPlan.intoDir ".").outFor "conf/a.txt" = some "./a.txt" ∧
+    final fsCwd (runFiles {} (Plan.single 5 .raise) 0 linksCwd fsCwd (some ".") true 1 jobsCwd).2
+      = [("conf/a.txt", "AA"), ("cw/a.txt", "X"), ("b.txt", "BB")] ∧
+    final fsCwd (runFiles {} Plan.clean 0 linksCwd fsCwd (some ".") true 1 jobsCwd).2
+      = [("conf/a.txt", "AA"), ("cw/a.txt", "XY"), ("b.txt", "BB")] ∧
+    final fsCwd (runFiles {} (Plan.single 5 .raise) 0 linksCwd fsCwd (some "") true 1 jobsCwd).2 = fsCwd ∧
+    final fsCwd (runFiles {} Plan.clean 0 linksCwd fsCwd (some "") true 1 jobsCwd).2
+      = [("conf/a.txt", "XY"), ("cw/a.txt", "PRODUCTION"), ("b.txt", "BB")] := by
+  decide +kernel
+
+/-- Several in files and one out file: `Error` before anything is opened. -/
+example : runFiles {} Plan.clean 0 {} fsEx (some "out.txt") false 2 jobsEx = (.raised 0, []) := by
+  decide +kernel
+
 /-! ### The monitor -/
 
 /-- **model_holds_C15.** The monitor `judge` — the statement of C15 as a decidable predicate over
@@ -454,6 +566,27 @@ theorem model_holds_C15_links {fs0 : Fs} {J : List Job} (l : Links)
     (judge fs0 (final fs0 (runJobsL {} plan i l fs0 J).2)
       (J.map fun j => (j.src, newContent j.body)) (runJobsL {} plan i l fs0 J).1.toEnd).holds = true := by
   rw [files_out_alias_is_no_out l wf hpa]
+  have hnd' : ((J.map Job.noOut).map (·.src)).Nodup := by
+    rw [List.map_map]; exact hnd
+  have htmp' : ∀ j ∈ J.map Job.noOut, isTempName j.tmp = true := by
+    intro j hj
+    obtain ⟨j0, hj0, rfl⟩ := List.mem_map.mp hj
+    exact htmp j0 hj0
+  have := model_holds_C15 wf hnd' hnames htmp' plan hplan i
+  rw [List.map_map] at this
+  exact this
+
+/-- **model_holds_C15_files.** The monitor holds of the model's final directory for the whole
+    `files_in_to_out` call whenever out is absent/None/'' . -/
+theorem model_holds_C15_files {fs0 : Fs} {J : List Job} (l : Links) (out : Option String)
+    (hout : out = none ∨ out = some "") (isDir : Bool) (nIn : Nat)
+    (wf : JobsWF fs0 (J.map Job.noOut))
+    (hnd : (J.map (·.src)).Nodup) (hnames : fs0.names.Nodup) (htmp : ∀ j ∈ J, isTempName j.tmp = true)
+    (plan : Plan) (hplan : ∀ i, plan i = .raise → plan (i + 1) ≠ .raise) (i : Nat) :
+    (judge fs0 (final fs0 (runFiles {} plan i l fs0 out isDir nIn J).2)
+      (J.map fun j => (j.src, newContent j.body)) (runFiles {} plan i l fs0 out isDir nIn J).1.toEnd).holds
+      = true := by
+  rw [falsy_out_is_no_out l out hout isDir nIn wf]
   have hnd' : ((J.map Job.noOut).map (·.src)).Nodup := by
     rw [List.map_map]; exact hnd
   have htmp' : ∀ j ∈ J.map Job.noOut, isTempName j.tmp = true := by
